@@ -87,6 +87,8 @@ def make_world(wid, graph, rng, *, kinds='class', hooks='all', faults=None,
             elif r < 0.75:
                 hk += [rng.choice(['testSetUp', 'testTearDown'])]
         spec = {'kind': kind, 'bases': bases, 'hooks': hk}
+        if kind == 'instance' and rng.random() < 0.15:
+            spec['falsy'] = True         # a layer object whose truth value is False
         if faults:
             f = faults(lname) if callable(faults) else faults.get(lname, {})
             spec.update(f)
